@@ -1,6 +1,14 @@
 """Bounded stand-in for C09: the de-cythonised _isomorphism.pyx generator is injected as chython.algorithms._isomorphism; for every
 (query, molecule) pair of the domain the mappings of query.get_mapping(mol) (compiled path through the real import switch) and of
-query.get_mapping(mol, _cython=False) must be equal as multisets (and, as recorded, in the same order)."""
+query.get_mapping(mol, _cython=False) must be equal as multisets (and, as recorded, in the same order).
+
+Parts (coverage audit): A the SMARTS x molecule grid; topo every small query topology x every small molecule topology under several
+insertion orders / numberings; pair the input classes of bounded/d09_extra.py (star queries, cages, charges +-4, isotope window edges, radicals,
+elements around the word boundaries, explicit hydrogens, special bonds, several components, query numberings, > 64 / > 256 atoms) with the
+keywords automorphism_filter / searching_scope and the derived entry points (is_substructure, <=, <, is_equal); molq queries built through the
+API from molecule substructures (full atom words, queries larger than the molecule, stereo marks); seq call sequences on ONE molecule object
+(repeated calls, interleaved / abandoned generators, consumers that edit the yielded dicts, public edits between the calls, copies); fallback
+the import switch without the extension."""
 import random
 
 from vlib import env
@@ -20,7 +28,209 @@ FIXED = ['Cl[Pd]Cl', 'Cl[Ni]Cl', 'C[Sn](C)(C)C', 'C[Pb](C)(C)C', 'ClC(Br)I', 'C1
          'C1CC2CC1CC2', 'C1C2CC3CC1CC(C2)C3', 'C1CCC2(CC1)CCCC2', 'C1CC2CCCC3CCCC(C1)C23', '[Fe]', '[Na+].[Cl-]', 'C[Mg]Br', '[13CH4]', '[2H]O[2H]',
          'C[N+](C)(C)C', 'CC(=O)[O-]', 'c1ccccc1', 'c1ccc2ccccc2c1', 'C1CCCCCC1', 'C1CCCCCCCCCCC1', 'OB(O)c1ccccc1', '[SeH]C', 'C[Te]C', '[U](F)(F)(F)(F)(F)F',
          'Cl[Pt](Cl)(N)N', '[La+3]', 'C=C.O', 'CC.CC.N', 'C1CC1.C1CC1', 'N#Cc1ccncc1', '[CH2-][N+]#N']
+SEQ_SMARTS = ['[A]', 'CC', '[C;D3]', '[A]~[A]', 'C(C)(C)C', '[N,O]', 'C=O', '[A]1[A][A][A][A][A]1', 'c1ccccc1', '[C;D1].[A;D1]', 'C[N,O]', '[A;D1]-[A]', '[13C]', '[A;+]', '[A]-[A]-[A]',
+              'O=CO', '[C] |^1:0|', '[H]', '[C;h3]']
+OVERFLOW = 'stack-arrays/pending>2N'
 
+
+# ---- the contract -------------------------------------------------------------------------------------------------------------------------------
+
+def _setup():
+    env.setup(pyx=True)
+
+
+def _canon(maps, af):
+    x = sorted(tuple(sorted(d.items())) for d in maps)
+    if af:
+        x = sorted({tuple(sorted(v for _, v in t)) for t in x})
+    return x
+
+
+def _h_limitation(q, m):
+    """recorded layout limitation (known finding probe:h-unknown): a hydrogen constraint containing 0 in the query and an atom with unknown hydrogen count
+    in the molecule - outside the new domain"""
+    if not any(0 in (getattr(a, 'implicit_hydrogens', None) or ()) for _, a in q.atoms()):
+        return False
+    return any(a.implicit_hydrogens is None for _, a in m.atoms())
+
+
+def _judge(q, m, kw, label, witness, viol):
+    """both matchers on one (query, molecule, keywords) input; returns (evaluated, number of reference mappings or None, same order?)"""
+    af = kw.get('automorphism_filter', True)
+    res = []
+    for extra in ({}, {'_cython': False}):
+        try:
+            res.append(list(q.get_mapping(m, **kw, **extra)))
+        except Exception as e:
+            res.append(e)
+    fast, slow = res
+    if isinstance(fast, Exception) or isinstance(slow, Exception):
+        side = 'compiled' if not isinstance(slow, Exception) else 'python' if not isinstance(fast, Exception) else 'both'
+        e = fast if isinstance(fast, Exception) else slow
+        from oracles.o09_stack import needs_more_than_2n
+        if side == 'compiled' and needs_more_than_2n(q, m, kw.get('searching_scope')):
+            key = f'{OVERFLOW}/{type(e).__name__}'
+            what = (f'{label}: the depth-first search holds more than 2 x {len(m)} pending candidates at its peak; the compiled generator allocates '
+                    f'stack_index / stack_depth with 2 * atoms_count entries and writes past their end ({type(e).__name__} in the translated model, heap '
+                    f'overflow in C); the Python matcher returns {len(slow)} mapping(s)')
+        else:
+            key = f'matcher-exc:{type(e).__name__}:{side}:{label}'
+            what = f'{type(e).__name__}: {e} in the {side} matcher for {label}'
+        viol.append((key, what, witness))
+        return 1, None, True
+    fa, sl = _canon(fast, af), _canon(slow, af)
+    same_order = True
+    if fa != sl:
+        from oracles.o09_stack import needs_more_than_2n
+        pre = f'{OVERFLOW}/differs:' if needs_more_than_2n(q, m, kw.get('searching_scope')) else 'matcher-differs:'
+        viol.append((pre + label, f'compiled matcher {len(fast)} mapping(s), Python matcher {len(slow)} for {label} (keywords '
+                     f'{ {k: (sorted(v) if k == "searching_scope" and v is not None else v) for k, v in kw.items()} }): only compiled '
+                     f'{[x for x in fa if x not in sl][:2]}, only Python {[x for x in sl if x not in fa][:2]}', witness))
+    elif not af:
+        same_order = [tuple(sorted(x.items())) for x in fast] == [tuple(sorted(x.items())) for x in slow]
+    return 1, len(slow), same_order
+
+
+def _entry_points(q, m, label, witness, viol):
+    """derived entry points ('everything built on them'): they take the default path; judged against the reference matcher"""
+    ref = next(q.get_mapping(m, automorphism_filter=False, _cython=False), None) is not None
+    n = 0
+    for name, got, exp in (('is_substructure', lambda: q.is_substructure(m), ref), ('<=', lambda: q <= m, ref),
+                           ('<', lambda: q < m, ref and len(q) < len(m)), ('is_equal', lambda: q.is_equal(m), ref and len(q) == len(m))):
+        try:
+            g = got()
+        except Exception as e:
+            from oracles.o09_stack import needs_more_than_2n
+            if needs_more_than_2n(q, m):
+                viol.append((f'{OVERFLOW}/{type(e).__name__}', f'{name} of {label}: {type(e).__name__}', witness))
+            else:
+                viol.append((f'entry-exc:{name}:{type(e).__name__}:{label}', f'{type(e).__name__}: {e} in {name} for {label}', witness))
+            continue
+        n += 1
+        if bool(g) != bool(exp):
+            viol.append((f'entry-differs:{name}:{label}', f'{name} returns {g} through the compiled matcher, the Python matcher says {exp} for {label}', witness))
+    return n
+
+
+# ---- case constructors (pure functions of JSON-able arguments: the witness replays them) -----------------------------------------------------------
+
+_cache = {}
+
+
+class _Skip(Exception):
+    """the input is not constructible on this tree (reader refuses the text): outside the domain"""
+
+
+def _mol(smi, raw):
+    from chython import smiles
+    k = ('m', smi, raw)
+    if k not in _cache:
+        if len(_cache) > 4000:
+            _cache.clear()
+        try:
+            m = smiles(smi)
+            if not raw:
+                m.kekule()
+                m.thiele()
+        except Exception:
+            m = None                 # not a molecule for the reader of this tree: outside the domain (the first part does the same)
+        _cache[k] = m
+    if _cache[k] is None:
+        raise _Skip
+    return _cache[k]
+
+
+def _qry(s):
+    from chython import smarts
+    k = ('q', s)
+    if k not in _cache:
+        try:
+            _cache[k] = smarts(s)
+        except Exception:
+            _cache[k] = None
+    if _cache[k] is None:
+        raise _Skip
+    return _cache[k]
+
+
+def _atlas(kind):
+    from bounded import domains as D
+    k = ('atlas', kind)
+    if k not in _cache:
+        _cache[k] = D.atlas(6, max_deg=6) if kind == 'q' else D.atlas(7, max_deg=4)
+    return _cache[k]
+
+
+def case_topo(qi, qseed, qbonds, qring, mi, mvar, mseed, af, skind):
+    from bounded import domains as D, d09_extra as X
+    qg, mg = _atlas('q')[qi], _atlas('m')[mi]
+    order = list(qg.nodes)
+    if qseed:
+        random.Random(qseed).shuffle(order)
+    q = X.graph_query(qg, order, qbonds, qring)
+    k = ('tm', mi)
+    if k not in _cache:
+        _cache[k] = D.build(mg)
+    m, _ = X.variant(_cache[k], mvar, mseed)
+    kw = {'automorphism_filter': af}
+    if skind:
+        kw['searching_scope'] = X.scope_of(m, mseed + 's', skind)
+    return q, m, kw, f'topo:q{qi}/{qseed}/{qbonds}/{int(qring)}:m{mi}/{mvar}/{mseed}:af{int(af)}:{skind}'
+
+
+def case_pair(s, qvar, qseed, smi, raw, mvar, mseed, af, skind):
+    from bounded import d09_extra as X
+    q, _ = X.variant(_qry(s), qvar, qseed)
+    m, _ = X.variant(_mol(smi, raw), mvar, mseed)
+    kw = {'automorphism_filter': af}
+    if skind:
+        kw['searching_scope'] = X.scope_of(m, mseed + 's', skind)
+    tag = '' if (qvar, mvar, skind) == ('id', 'id', None) else f':{qvar}/{qseed}:{mvar}/{mseed}:{skind}'
+    return q, m, kw, f'{s}:{smi}{":raw" if raw else ""}{tag}:af{int(af)}'
+
+
+def case_molq(src, sseed, k, level, stereo, qvar, tgt, mvar, mseed, af, skind):
+    from bounded import d09_extra as X
+    sm = _mol(src, False)
+    r = random.Random(sseed)
+    atoms = X.connected_subset(sm, r, k)
+    q = X.mol_query(sm, atoms, level, stereo=stereo)
+    q, _ = X.variant(q, qvar, sseed + 'q')
+    m, _ = X.variant(_mol(tgt or src, False), mvar, mseed)
+    kw = {'automorphism_filter': af}
+    if skind:
+        kw['searching_scope'] = X.scope_of(m, mseed + 's', skind)
+    return q, m, kw, f'molq:{src}/{sseed}/{k}/L{level}{"s" if stereo else ""}/{qvar}:{tgt or "self"}/{mvar}/{mseed}:af{int(af)}:{skind}'
+
+
+CASES = {'topo': case_topo, 'pair': case_pair, 'molq': case_molq}
+
+
+def _work_cases(chunk):
+    """chunk: [(part, args, nontrivial-expected?)]"""
+    _setup()
+    n, keys, viol, od, skipped, entry = 0, [], [], 0, 0, 0
+    for part, args in chunk:
+        try:
+            q, m, kw, label = CASES[part](*args)
+        except _Skip:
+            skipped += 1
+            continue
+        if _h_limitation(q, m):
+            skipped += 1
+            continue
+        wit = {'part': part, 'args': list(args)}
+        c, ns, same = _judge(q, m, kw, label, wit, viol)
+        n += c
+        od += not same
+        if ns:
+            keys.append(label)
+        if part == 'pair' and args[1] == 'id' and args[5] == 'id' and args[8] is None and not args[7]:
+            entry += _entry_points(q, m, label, wit, viol)
+    return n + entry, keys, viol, od, skipped
+
+
+# ---- part A: the SMARTS x molecule grid (unchanged) --------------------------------------------------------------------------------------------------
 
 def _work(chunk):
     env.setup(pyx=True)
@@ -65,6 +275,303 @@ def _work(chunk):
     return n, keys, viol, order_diff
 
 
+# ---- part seq: call sequences on one molecule object -----------------------------------------------------------------------------------------------
+
+def run_seq(smi, seed, nsteps, viol):
+    """seeded call sequence on ONE molecule object and a few query objects that live through the whole sequence.  After every step the compiled path
+    (which reads the memoised packed structure of the molecule / query) is judged against the Python matcher (which reads the live objects)."""
+    from bounded import d09_extra as X
+    from chython import smarts
+    r = random.Random(seed)
+    m = _mol(smi, False).copy()
+    qs = [(s, smarts(s)) for s in r.sample(SEQ_SMARTS, 5)]
+    ops = X.edit_ops()
+    n, nontrivial = 0, 0
+    wit = {'part': 'seq', 'args': [smi, seed, nsteps]}
+    done = []
+
+    def judge_all(step):
+        nonlocal n, nontrivial
+        for s, q in qs:
+            if _h_limitation(q, m):
+                continue
+            kw = {'automorphism_filter': r.random() < .5}
+            if r.random() < .25:
+                kw['searching_scope'] = X.scope_of(m, f'{seed}/{step}', r.choice(['half', 'most', 'all']))
+            c, ns, _ = _judge(q, m, kw, f'seq:{smi}/{seed}:step{step}:{"+".join(done) or "start"}:{s}', wit, viol)
+            n += c
+            nontrivial += bool(ns)
+
+    judge_all(0)
+    for step in range(1, nsteps + 1):
+        x = r.random()
+        if x < .5:                                             # a public edit between two calls
+            name, fn = r.choice(ops)
+            try:
+                fn(m, r)
+            except X.NotApplicable:
+                continue
+            except Exception:
+                break                                         # after an editing call that raised the state of the molecule is not specified: stop observing it
+            done.append(name)
+            if not len(m):
+                break
+        elif x < .62:                                          # two compiled generators of one molecule consumed alternately
+            (s1, q1), (s2, q2) = r.sample(qs, 2)
+            if _h_limitation(q1, m) or _h_limitation(q2, m):
+                continue
+            done.append('interleave')
+            try:
+                g1, g2 = q1.get_mapping(m, automorphism_filter=False), q2.get_mapping(m, automorphism_filter=False)
+                o1, o2 = [], []
+                live = [(g1, o1), (g2, o2)]
+                while live:
+                    g, o = live[r.randrange(len(live))]
+                    try:
+                        o.append(dict(next(g)))
+                    except StopIteration:
+                        live.remove((g, o))
+                ref1 = list(q1.get_mapping(m, automorphism_filter=False, _cython=False))
+                ref2 = list(q2.get_mapping(m, automorphism_filter=False, _cython=False))
+            except Exception as e:
+                from oracles.o09_stack import needs_more_than_2n
+                if needs_more_than_2n(q1, m) or needs_more_than_2n(q2, m):
+                    viol.append((f'{OVERFLOW}/{type(e).__name__}', f'interleaved generators on {smi}: {type(e).__name__}', wit))
+                else:
+                    viol.append((f'seq-exc:interleave:{type(e).__name__}:{smi}/{seed}', f'{type(e).__name__}: {e} while two generators ({s1}, {s2}) of one molecule were consumed alternately', wit))
+                continue
+            n += 2
+            for s, o, ref in ((s1, o1, ref1), (s2, o2, ref2)):
+                if _canon(o, False) != _canon(ref, False):
+                    viol.append((f'seq-differs:interleave:{smi}/{seed}:step{step}:{s}', f'two compiled generators ({s1}, {s2}) consumed alternately on {smi} after {done}: {s} gives '
+                                 f'{len(o)} mapping(s), the Python matcher {len(ref)}', wit))
+        elif x < .74:                                          # the consumer edits every yielded dict; an abandoned generator stays alive meanwhile
+            s, q = r.choice(qs)
+            if _h_limitation(q, m):
+                continue
+            done.append('consume')
+            try:
+                abandoned = q.get_mapping(m, automorphism_filter=False)
+                next(abandoned, None)
+                got = []
+                for d in q.get_mapping(m, automorphism_filter=False):
+                    got.append(tuple(sorted(d.items())))
+                    d.clear()
+                    d[0] = 0
+                ref = [tuple(sorted(d.items())) for d in q.get_mapping(m, automorphism_filter=False, _cython=False)]
+                if r.random() < .5:
+                    abandoned.close()
+            except Exception as e:
+                from oracles.o09_stack import needs_more_than_2n
+                if needs_more_than_2n(q, m):
+                    viol.append((f'{OVERFLOW}/{type(e).__name__}', f'consumer loop on {smi}: {type(e).__name__}', wit))
+                else:
+                    viol.append((f'seq-exc:consume:{type(e).__name__}:{smi}/{seed}', f'{type(e).__name__}: {e} for {s} on {smi} after {done}', wit))
+                continue
+            n += 1
+            if sorted(got) != sorted(ref):
+                viol.append((f'seq-differs:consume:{smi}/{seed}:step{step}:{s}', f'consumer that clears every yielded dict: compiled path gives {len(got)} mapping(s) '
+                             f'{[x for x in got if x not in ref][:2]}, the Python matcher {len(ref)} for {s} on {smi} after {done}', wit))
+        elif x < .8:                                           # a copy made after earlier calls (memoised structure must not travel in a wrong state)
+            done.append('copy')
+            m = m.copy()
+        else:
+            done.append('again')                              # plain repetition (memoised structure reused)
+        judge_all(step)
+    return n, nontrivial
+
+
+def _work_seq(chunk):
+    _setup()
+    n, keys, viol = 0, [], []
+    for smi, seed, nsteps in chunk:
+        try:
+            c, nt = run_seq(smi, seed, nsteps, viol)
+        except _Skip:
+            continue
+        n += c
+        if nt:
+            keys.append(f'seq:{smi}/{seed}')
+    return n, keys, viol, 0, 0
+
+
+def _work_query_edit(chunk):
+    """a query object edited through its public API between two calls (memoised packed query), and used on several molecules in turn"""
+    _setup()
+    from chython import smarts
+    from chython.periodictable import QueryElement, AnyElement
+    n, keys, viol = 0, [], []
+    for qs, smis, seed in chunk:
+        r = random.Random(seed)
+        try:
+            q = smarts(qs)
+        except Exception:
+            continue
+        wit = {'part': 'qedit', 'args': [qs, smis, seed]}
+        done = []
+        for step in range(4):
+            for smi in smis:
+                try:
+                    m = _mol(smi, False)
+                except _Skip:
+                    continue
+                if _h_limitation(q, m):
+                    continue
+                c, ns, _ = _judge(q, m, {'automorphism_filter': r.random() < .5}, f'qedit:{qs}/{seed}:{"+".join(done) or "start"}:{smi}', wit, viol)
+                n += c
+                if ns:
+                    keys.append(f'qedit:{qs}/{seed}/{step}:{smi}')
+            x = r.randrange(3)
+            if x == 0:
+                k = q.add_atom(r.choice(['C', 'N', 'O']))
+                q.add_bond(r.choice([a for a in q if a != k]), k, r.choice([1, (1, 2), 2]))
+                done.append('add_atom+bond')
+            elif x == 1:
+                k = q.add_atom(AnyElement(), max(q) + 7)
+                done.append('add_component')
+            else:
+                nums = list(q)
+                free = [(a, b) for a in nums for b in nums if a < b and not q.has_bond(a, b)]
+                if free:
+                    a, b = r.choice(free)
+                    q.add_bond(a, b, (1, 2, 4))
+                    done.append('add_closure')
+    return n, keys, viol, 0, 0
+
+
+def _work_fallback(chunk):
+    """the import switch: without the extension the default path must fall back to the Python matcher (same mappings, nothing raised)"""
+    _setup()
+    import sys
+    import chython.algorithms as alg
+    name = 'chython.algorithms._isomorphism'
+    built = []
+    for s, smi in chunk:                    # inputs are built while the extension is present (the readers use the matcher themselves)
+        try:
+            built.append((s, smi, _qry(s), _mol(smi, False)))
+        except _Skip:
+            pass
+    mod = sys.modules.pop(name)
+    had = alg.__dict__.pop('_isomorphism', None)
+    n, viol = 0, []
+    try:
+        for s, smi, q, m in built:
+            wit = {'part': 'fallback', 'args': [s, smi]}
+            try:
+                a = list(q.get_mapping(m, automorphism_filter=False))
+                b = list(q.get_mapping(m, automorphism_filter=False, _cython=False))
+            except Exception as e:
+                viol.append((f'fallback-exc:{type(e).__name__}:{s}:{smi}', f'{type(e).__name__}: {e} for {s} on {smi} without the compiled extension', wit))
+                continue
+            n += 1
+            if _canon(a, False) != _canon(b, False):
+                viol.append((f'fallback-differs:{s}:{smi}', f'without the compiled extension the default path gives {len(a)} mapping(s), _cython=False {len(b)} for {s} on {smi}', wit))
+    finally:
+        sys.modules[name] = mod
+        if had is not None:
+            alg._isomorphism = had
+    return n, [], viol, 0, 0
+
+
+# ---- driver -------------------------------------------------------------------------------------------------------------------------------------------
+
+def _chunks(items, k=64):
+    items = list(items)
+    return [items[i::k] for i in range(k) if items[i::k]]
+
+
+def _plan(run):
+    """argument tuples of every part (deterministic for a given VERIF_SEED and tier)"""
+    from bounded import domains as D, d09_extra as X
+    thorough = run.tier == 'thorough'
+    S = env.SEED
+    r = D.rnd('c09plan')
+    cases = []
+    # --- topo: every connected graph with <= 5 (6) nodes as a query x every connected graph with <= 6 (7) nodes of degree <= 4 as an all-carbon molecule
+    qa, ma = D.atlas(6, max_deg=6), D.atlas(7, max_deg=4)
+    qmax, mmax = (6, 7) if thorough else (5, 6)
+    qi_ = [i for i, g in enumerate(qa) if g.number_of_nodes() <= qmax]
+    mi_ = [i for i, g in enumerate(ma) if 2 <= g.number_of_nodes() <= mmax]
+    ntopo = 0
+    for qi in qi_:
+        for mi in mi_:
+            if qa[qi].number_of_nodes() > ma[mi].number_of_nodes() + 1 or qa[qi].number_of_edges() > ma[mi].number_of_edges() + 1:
+                continue
+            cases.append(('topo', (qi, '', 'single', False, mi, 'id', f'{S}', False, None)))
+            for t in range(3 if thorough else 2):
+                cases.append(('topo', (qi, f'{S}:{qi}:{mi}:{t}', r.choice(['single', 'any']), r.random() < .5, mi, r.choice(X.VARIANTS[1:]), f'{S}:{qi}:{mi}:{t}',
+                                       r.random() < .3, r.choice([None, None, None, 'half', 'most', 'all', 'foreign']))))
+            ntopo += 1
+    run.bound(f'topo: {len(qi_)} query topologies (all connected graphs <= {qmax} nodes, any-element atoms, single / any-order bonds, with and without ring marks, every '
+              f'start atom through seeded insertion orders) x {len(mi_)} molecule topologies (all connected graphs 2..{mmax} nodes, degree <= 4, all-carbon) = {ntopo} pairs '
+              f'x {4 if thorough else 3} (numbering variant in {X.VARIANTS}, automorphism filter, searching_scope kind)')
+    # --- pair: the input classes of d09_extra x keywords
+    xs = [s for s in X.SMARTS]
+    mols = [(s, False) for s in X.MOLS]
+    corp = D.corpus_sample(300 if thorough else 40, 'c09x')
+    npair = 0
+    for s in xs:
+        for smi, raw in mols:
+            cases.append(('pair', (s, 'id', '', smi, raw, 'id', '', False, None)))
+            cases.append(('pair', (s, r.choice(X.QVARIANTS), f'{S}q{npair}', smi, raw, r.choice(X.VARIANTS), f'{S}m{npair}', r.random() < .6, r.choice(X.SCOPES + [None, None]))))
+            npair += 1
+    for s in SMARTS:                                            # the first list on the new molecule classes
+        for smi, raw in mols:
+            cases.append(('pair', (s, r.choice(X.QVARIANTS), f'{S}q{npair}', smi, raw, r.choice(X.VARIANTS), f'{S}m{npair}', r.random() < .5, r.choice(X.SCOPES + [None, None]))))
+            npair += 1
+    for s in xs:                                                # the new queries on the first molecule list, the corpus sample and unnormalised records
+        for smi in FIXED + corp:
+            cases.append(('pair', (s, r.choice(X.QVARIANTS), f'{S}q{npair}', smi, False, r.choice(X.VARIANTS), f'{S}m{npair}', r.random() < .5, r.choice(X.SCOPES + [None, None]))))
+            npair += 1
+        for smi in corp[:80 if thorough else 12]:
+            cases.append(('pair', (s, 'id', '', smi, True, 'id', '', False, None)))
+            npair += 1
+    run.bound(f'pair: {len(xs)} further SMARTS (star / chain / cage / 3-component queries, own numbering and masked atoms, special bond, charges +-4, isotope window edges, '
+              f'radicals, elements around the Ba|La and Rn|Fr word boundaries) x {len(mols)} further molecules (high-degree centre last, explicit H, charges +-4, isotopes, '
+              f'radicals, heavy elements, cages, salts, coordinate bonds) both ways with the first lists and {len(corp)} corpus molecules; keywords automorphism_filter x '
+              f'searching_scope in {X.SCOPES} (set / list / tuple) x numbering variants {X.VARIANTS} / {X.QVARIANTS}; is_substructure, <=, <, is_equal on the plain pairs; '
+              f'{npair} pairs')
+    # --- big molecules
+    big = X.big_smiles(thorough)
+    for smi in big:
+        for s in X.BIG_SMARTS:
+            cases.append(('pair', (s, 'id', '', smi, False, r.choice(X.VARIANTS), f'{S}b', r.random() < .5, r.choice([None, None, 'half', 'most']))))
+    import re
+    run.bound(f'big: {len(big)} molecules with {min(len(re.findall("[A-Zc]", b)) for b in big)}..{max(len(re.findall("[A-Zc]", b)) for b in big)} atoms (> 64 and > 256) x {len(X.BIG_SMARTS)} SMARTS')
+    # --- molq: queries built from molecule substructures through the API
+    src = FIXED + [s for s in X.MOLS if '~' not in s] + D.corpus_sample(400 if thorough else 50, 'c09q')
+    nq = 0
+    for i, smi in enumerate(src):
+        other = src[(i + 1) % len(src)]
+        for t in range(4 if thorough else 3):
+            k = r.choice([1, 2, 3, 4, 5, 6, 8, 10, 14, 40])
+            level = r.choice([0, 1, 2, 2])
+            stereo = '@' in smi and r.random() < .7
+            a = (smi, f'{S}:{i}:{t}', k, level, stereo, r.choice(X.QVARIANTS[:4]))
+            cases.append(('molq', a + (None, r.choice(X.VARIANTS), f'{S}:{i}:{t}', r.random() < .5, r.choice([None, None, None, 'most', 'all']))))
+            cases.append(('molq', a + (other, 'id', f'{S}:{i}:{t}o', False, None)))
+            nq += 2
+    # stereo marks (the stereo filter of QueryIsomorphism.get_mapping runs on the mappings of either matcher): whole-molecule queries of chiral / cis-trans sources
+    cs = D.corpus_smiles()
+    chir = ([x for x in cs if '@' in x][:120 if thorough else 16] + [x for x in cs if '/' in x or '\\' in x][:60 if thorough else 8] +
+            ['C[C@H](N)C(=O)O', 'C[C@@H](N)C(=O)O', 'F/C=C/F', 'F/C=C\\F', 'C[C@@H](O)[C@H](N)CC', 'CC=[C@]=CC', 'C[C@H](O)/C=C/C', 'C[C@]1(O)CC[C@H](N)CC1', 'C/C=C/C=C\\C'])
+    for i, smi in enumerate(chir):
+        for level in (0, 2):
+            cases.append(('molq', (smi, f'{S}:st{i}', 80, level, True, 'id', None, r.choice(['id', 'perm', 'gaps', 'big']), f'{S}:st{i}', r.random() < .5, None)))
+            nq += 1
+        cases.append(('molq', (smi, f'{S}:st{i}', 80, 1, True, 'id', chir[(i + 1) % len(chir)], 'id', f'{S}:st{i}o', False, None)))
+        nq += 1
+    # whole-molecule queries of molecules with > 64 / > 256 atoms (search depth > 255)
+    for i, smi in enumerate(['C' * 70, 'C' * 257, 'OCC' * 25 + 'O', 'NCC(=O)' * 20 + 'O', 'C1CC2CCC1CC2' + 'C' * 50 + 'C1CC2CCC1CC2'] + (['C' * 600, 'NCC(=O)' * 70 + 'O'] if thorough else [])):
+        cases.append(('molq', (smi, f'{S}:big{i}', 2000, 1, False, 'id', None, r.choice(['perm', 'desc', 'gaps']), f'{S}:big{i}', False, None)))
+        nq += 1
+    run.bound(f'molq: {nq} queries built through the API (QueryElement.from_atom / QueryBond.from_bond + ring sizes) from seeded connected substructures (1..40 atoms, levels: '
+              f'elements only / + neighbours, hybridisation / + heteroatoms, hydrogens, ring sizes, ring marks; stereo marks on chiral sources) of {len(src)} molecules, matched on '
+              f'the source under a numbering variant and on another molecule (queries larger than the molecule included); whole-molecule queries with stereo marks of '
+              f'{len(chir)} chiral / cis-trans sources; whole-molecule queries with 70..281 (thorough 600) atoms')
+    return cases
+
+
 def bounded(run):
     from bounded import domains as D
     thorough = run.tier == 'thorough'
@@ -94,17 +601,72 @@ def bounded(run):
         for key, what, wit in viol:
             run.violation(key, what, witness=wit)
     run.case(0, sample={'query': SMARTS[3], 'molecule': FIXED[5]})
-    run.notes['same_set_but_different_order'] = od
     run.bound(f'{len(SMARTS)} SMARTS queries (every primitive, element lists with light and heavy elements, rings 3-8, fused / bridged ring queries, '
               f'multi-component) x {len(mols)} molecules (fixed cages, metals, isotopes + corpus sample, part of it straight after parsing) x '
               f'automorphism filter on/off')
-    run.assume('the de-cythonised generator stands for the compiled extension (same translator as validated for C10 on the published packs)')
+
+    # ---- coverage audit parts
+    skipped = 0
+    plan = _plan(run)
+    D.rnd('c09shuffle').shuffle(plan)                # spread the expensive cases over the workers
+    for n, keys, viol, o, sk in pmap(_work_cases, _chunks(plan, 96)):
+        run.case(n)
+        od += o
+        skipped += sk
+        for k in keys:
+            run.case(0, key=k)
+        for key, what, wit in viol:
+            run.violation(key, what, witness=wit)
+    run.case(0, sample={'part': 'topo', 'args': list(plan[0][1])})
+    seq_src = FIXED + D.corpus_sample(300 if thorough else 45, 'c09seq') + ['CC(C)(C)C', 'C1.C2.C3.C4.C1234', 'C12C3C4C1C5C2C3C45', 'c1ccccc1C(=O)O', 'OCC(O)CO', 'CC(C)C[C@H](N)C(=O)O']
+    seqs = [(smi, f'{env.SEED}:{i}:{t}', 10) for i, smi in enumerate(seq_src) for t in range(3 if thorough else 2)]
+    for n, keys, viol, _, _ in pmap(_work_seq, _chunks(seqs, 64)):
+        run.case(n)
+        for k in keys:
+            run.case(0, key=k)
+        for key, what, wit in viol:
+            run.violation(key, what, witness=wit)
+    run.bound(f'seq: {len(seqs)} seeded call sequences of 10 steps on ONE molecule object with 5 live query objects out of {len(SEQ_SMARTS)}: repeated calls, public edits '
+              f'between calls (add_atom, add_bond, delete_atom, delete_bond, charge / radical / isotope in a transaction, bond replaced, kekule, thiele, explicify / implicify '
+              f'hydrogens, remap, in-place union), copies, two compiled generators consumed alternately, abandoned generators, consumers that overwrite the yielded dicts')
+    qed = [(s, r.sample(FIXED + seq_src[-6:], 4), f'{env.SEED}:{i}') for i, s in enumerate(['CC', '[A]~[A]', 'C(C)C', 'C1CC1', '[C;D2][C;D2]', 'C=O', '[N,O]C', 'C.C', '[A]', 'CCCC'])]
+    fb = [(s, smi) for s in ['CC', '[A]1[A][A]1', '[N,O]', 'C(C)(C)C', 'C.C', '[M]'] for smi in FIXED[:12]]
+    for w, items in ((_work_query_edit, qed), (_work_fallback, fb)):
+        for n, keys, viol, _, _ in pmap(w, _chunks(items, 8)):
+            run.case(n)
+            for k in keys:
+                run.case(0, key=k)
+            for key, what, wit in viol:
+                run.violation(key, what, witness=wit)
+    run.bound(f'qedit: {len(qed)} query objects edited through add_atom / add_bond (new branch, new component, new ring closure) between calls on 4 molecules each; '
+              f'fallback: {len(fb)} pairs with the extension module removed from the import system')
+    run.notes['same_set_but_different_order'] = od
+    run.notes['pairs_outside_domain_h_unknown_limitation'] = skipped
+    run.assume('the de-cythonised generator stands for the compiled extension (same translator as validated for C10 on the published packs); a write past the end of a '
+               'malloc-ed C array shows as IndexError of the model',
+               'oracles/o09_stack.py (reference depth-first search with the library\'s own == of query atoms / bonds) decides the input class "more than 2N pending candidates"')
 
 
 def replay(rec):
     env.setup(pyx=True)
     from chython import smiles, smarts
     w = rec['witness']
+    if 'part' in w:
+        viol = []
+        if w['part'] in CASES:
+            q, m, kw, label = CASES[w['part']](*w['args'])
+            _judge(q, m, kw, label, w, viol)
+            if w['part'] == 'pair':
+                _entry_points(q, m, label, w, viol)
+        elif w['part'] == 'seq':
+            run_seq(*w['args'], viol)
+        elif w['part'] == 'qedit':
+            viol = _work_query_edit([tuple(w['args'])])[2]
+        elif w['part'] == 'fallback':
+            viol = _work_fallback([tuple(w['args'])])[2]
+        for key, what, _ in viol:
+            print(key, '|', what)
+        return not any(k == rec['key'] for k, _, _ in viol)
     m = smiles(w['molecule'])
     if not w.get('raw'):
         m.kekule()
